@@ -1,29 +1,28 @@
-"""What is claimed in MANIFEST.json, per property (text = assurance, note = assumptions)."""
+"""What is claimed in MANIFEST.json.  Each rule module bsa/rules/cNN.py carries its own
+``CLAIM = {"text": ..., "technique": ..., "note": ..., "level": ...}``; a property without a rule
+module (or whose module has no CLAIM) is listed as not applicable."""
+
+import importlib
+import os
 
 _BASE_NOTE = ("Static analysis of the current /repo source only (ast; nothing is imported or run). Sound for the stated "
               "model: asyncio switches tasks only at await; calls in the 'total' table (logging, container methods, "
               "OpenTelemetry API) do not raise; device / library code is opaque and may raise Exception. Trusted base: "
-              "CPython ast parser, the CFG builder and solvers in /verif/bsa. Clauses marked 'not decided' in the evidence "
-              "explanation are outside the claim.")
+              "CPython ast parser, the CFG builder and solvers in /verif/bsa. Clauses named 'not decided' in the evidence "
+              "explanation are outside the claim; the behaviour under real inputs / schedules is decided only through the "
+              "named structural clauses, each a necessary condition of the property.")
 
-
-def _c(text, technique, note="", level="other"):
-    return {"text": text, "technique": technique, "note": (note + " " if note else "") + _BASE_NOTE, "level": level}
-
-
-CLAIMS: dict[str, dict] = {
-    "C07": _c(
-        "Decides, for every interleaving at await granularity of the five request coroutines with RunEngine._run, that "
-        "each assignment to _state made by _run (or by a handler on its behalf) is in the transition table for every "
-        "reachable abstract tuple (state, run-permit, resumable, cancel-pending); that every exit of _run passes "
-        "_state='idle' on every path including CancelledError/Exception edges; that _state is written only by RunEngine "
-        "with literal states through the checking setter; and that the blocking entry points are guarded. The behaviour "
-        "under real timing is not decided; today's tree has the F-1 family of known findings (engine stuck when a request "
-        "lands during the epilogue).",
-        "thread-modular typestate fixpoint over a CFG with exceptional edges; post-dominance (must-pass-through); ownership table",
-        "Request alphabet: pause, deferred pause, suspend, abort, stop, halt, main-thread permit set; KeyboardInterrupt / "
-        "'panicked' path and commands added with register_command are outside the model."),
-}
+CLAIMS: dict[str, dict] = {}
+_rules = os.path.join(os.path.dirname(__file__), "rules")
+for fn in sorted(os.listdir(_rules)):
+    if fn.startswith("c") and fn.endswith(".py") and fn[1:-3].isdigit():
+        mod = importlib.import_module(f"bsa.rules.{fn[:-3]}")
+        c = getattr(mod, "CLAIM", None)
+        if c:
+            CLAIMS[fn[:-3].upper()] = {
+                "text": c["text"], "technique": c["technique"], "level": c.get("level", "other"),
+                "note": ((c.get("note", "") + " ") if c.get("note") else "") + _BASE_NOTE,
+            }
 
 NOT_APPLICABLE = {
     "C26": "statement is about values produced by numpy index arithmetic (tile/repeat/reverse); no clause is visible in "
